@@ -726,25 +726,36 @@ Proof.
   intros A a x b. induction a as [| y a IHa]; [reflexivity | exact IHa].
 Qed.
 
+Lemma take_until_rbrace_spec : forall ts c rest, take_until_rbrace ts = (c, rest) -> ts = c ++ rest.
+Proof.
+  induction ts as [| t r IHr]; intros c rest H; simpl in H.
+  - inversion H. reflexivity.
+  - destruct (is_rbrace t).
+    + inversion H. reflexivity.
+    + destruct (take_until_rbrace r) as [c' rest'] eqn:Htb. inversion H. subst c rest.
+      simpl. rewrite <- (IHr c' rest' eq_refl). reflexivity.
+Qed.
+
 Lemma init_len_split : forall ts n, init_len ts = Some n ->
   exists pre o flat c post semi r,
     ts = (pre ++ o :: flat ++ c :: post ++ [semi]) ++ r /\
     n = length (pre ++ o :: flat ++ c :: post ++ [semi]) /\
-    forallb plain pre = true /\ is_lbrace o = true /\ forallb plain flat = true /\ is_rbrace c = true /\
+    forallb plain pre = true /\ is_lbrace o = true /\ inner flat /\ is_rbrace c = true /\
     inner post /\ is_symbol semi semicolon = true.
 Proof.
   intros ts n H. unfold init_len in H.
   destruct (take_plain ts) as [pre r1] eqn:Hp1.
   destruct r1 as [| o r2]; [discriminate |].
   destruct (is_lbrace o) eqn:Ho; [| discriminate].
-  destruct (take_plain r2) as [flat r3] eqn:Hp2.
+  destruct (take_until_rbrace r2) as [flat r3] eqn:Hp2.
   destruct r3 as [| c r4]; [discriminate |].
-  destruct (is_rbrace c) eqn:Hc; [| discriminate].
+  destruct (is_rbrace c && inner_b flat) eqn:Hc; [| discriminate].
+  apply andb_true_iff in Hc. destruct Hc as [Hc Hflat]. apply inner_b_sound in Hflat.
   destruct (stmt_len r4 0) as [m |] eqn:Hsl; [| discriminate].
   destruct (inner_b (firstn (m - 1) r4)) eqn:Hin; [| discriminate].
   inversion H; subst n. clear H.
   apply take_plain_spec in Hp1. destruct Hp1 as [E1 Hpre].
-  apply take_plain_spec in Hp2. destruct Hp2 as [E2 Hflat].
+  apply take_until_rbrace_spec in Hp2. rename Hp2 into E2.
   apply stmt_len_split in Hsl. destruct Hsl as (post & semi & r & E4 & Em & Hsemi).
   assert (Efirst : firstn (m - 1) r4 = post).
   { subst m r4. cbn [Nat.sub]. rewrite Nat.sub_0_r. apply firstn_app_exact. }
@@ -773,7 +784,15 @@ Proof.
     destruct X as [[dsb restb] |] eqn:Hblk end.
   { (* a bare block *)
     inversion H; subst dsb restb. clear H.
-    destruct (is_lbrace t0) eqn:Hlb; [| discriminate].
+    destruct (is_lbrace t0) eqn:Hlb.
+    2: { (* a label *)
+      destruct (is_keyword t0) eqn:Hkw; [| discriminate].
+      destruct ts' as [| colon r0]; [discriminate |].
+      destruct (is_operator colon s_colon) eqn:Hcol; [| discriminate].
+      apply IHf in Hblk. destruct Hblk as (used & Er0 & Hitems).
+      exists (t0 :: colon :: used). split.
+      - rewrite Ets, Er0. reflexivity.
+      - apply io_label; assumption. }
     match type of Hblk with context [parse_items f l ?x ts'] =>
       destruct (parse_items f l x ts') as [[ds1 [| c more]] |] eqn:Hp1; try discriminate end.
     destruct (is_rbrace c) eqn:Hrc; [| discriminate].
